@@ -23,6 +23,19 @@ def c18(ck):
                         seed=ck.seed, exhaustive=False, timeout=3000)
 
 
+def c03(ck):
+    ck.rule = ("text-markup-text triples: left/right text = core x whitespace run (all runs up to the bound over {space, tab, LF, CR}; "
+               "cores '', a, e-acute, }, %, quote, emoji) around an output tag or an assign tag with each of the 4 trim-marker "
+               "combinations and 0..MaxPad inner spaces; two markups in a row; text-only templates; if / raw / comment blocks with all "
+               "16 marker combinations x 4x4 outer texts x bodies (whitespace-edged text, things that look like markup, unterminated "
+               "markup, trimming pseudo-tags, side-effecting markup, nested comment) followed by a side-effect probe; "
+               "non-trivial = contains markup")
+    ck.assumptions = ["text never fuses with a neighbouring delimiter into a different delimiter (cores exclude '{')",
+                      "whitespace = space, tab, CR, LF as the property states"]
+    ck.replay_stage("templates", "MC_C03", "MC_C03_quick.cfg" if ck.tier == "quick" else "MC_C03_thorough.cfg",
+                    tlc_workers=8 if ck.tier == "quick" else 12, timeout=3400)
+
+
 def c04(ck):
     ck.rule = ("every program with at most N statement nodes over the statement alphabet {safe read, assign literal, assign copy, "
                "increment, decrement, include with argument, for, capture, if} on 2 (3) reused names x 3 caller data maps x 2 partial "
@@ -148,7 +161,7 @@ def c20(ck):
     ck.trace_stage("realthreads", ["threads", "--runs", runs], "Trace_Threads", "Trace_Threads.cfg", heap="8g", timeout=3000)
 
 
-PROPS = {"C04": c04, "C06": c06, "C07": c07, "C08": c08, "C09": c09, "C10": c10, "C19": c19, "C20": c20, "C05": c05, "C18": c18}
+PROPS = {"C03": c03, "C04": c04, "C06": c06, "C07": c07, "C08": c08, "C09": c09, "C10": c10, "C19": c19, "C20": c20, "C05": c05, "C18": c18}
 
 
 def replay_file(prop, path):
